@@ -34,6 +34,8 @@ pub struct NoDef(pub u8);
 pub struct PErrG<T>(pub String, pub core::marker::PhantomData<T>);
 pub fn perr_g<T>(s: &str) -> PErrG<T> { CALLS.fetch_add(1, Ordering::SeqCst); PErrG(s.to_string(), core::marker::PhantomData) }
 pub mod errs { pub use super::{PErr, perr}; }
+pub static LAST_ARG: std::sync::Mutex<String> = std::sync::Mutex::new(String::new());
+pub fn perr_strum(s: &str) -> strum::ParseError { CALLS.fetch_add(1, Ordering::SeqCst); *LAST_ARG.lock().unwrap() = s.to_string(); strum::ParseError::VariantNotFound }
 /// a parse_err_fn that is generic over its ARGUMENT (not coercible to one `fn(&str) -> _` pointer)
 pub fn perr_any<S: AsRef<str>>(s: S) -> PErr { CALLS.fetch_add(1, Ordering::SeqCst); PErr(s.as_ref().to_string()) }
 
@@ -140,7 +142,11 @@ GENERIC_DECL = {
 }
 # spellings of the custom parse error: (parse_err_ty, parse_err_fn, pattern binding the message as `s`)
 ERR_FORMS = {'plain': ('PErr', 'perr', 'PErr(s)'), 'path': ('errs::PErr', 'errs::perr', 'PErr(s)'),
-             'generic': ('PErrG<u8>', 'perr_g::<u8>', 'PErrG(s, _)'), 'argfn': ('PErr', 'perr_any', 'PErr(s)')}
+             'generic': ('PErrG<u8>', 'perr_g::<u8>', 'PErrG(s, _)'), 'argfn': ('PErr', 'perr_any', 'PErr(s)'),
+             # the error TYPE is strum's own ParseError: the user's function still has to be called (it records its argument)
+             'strumerr': ('strum::ParseError', 'perr_strum', '_unit'),
+             # an associated function of the enum itself
+             'assoc': ('PErr', 'Self::perr_assoc', 'PErr(s)')}
 # the same parameter lists with defaults (legal on the enum, not allowed in an impl header)
 GENERIC_DEFAULTS = {'ty': ' = u16', 'lt_ty': ' = u16', 'ty_nd': ' = NoDef', 'const': ' = 3'}
 
@@ -330,7 +336,7 @@ class EnumGen:
 
     def enum_attrs(self):
         e = self.e
-        ty, fn, _ = ERR_FORMS[e.extra.get('err_form', 'plain')]
+        ty, fn, _ = ERR_FORMS[self.err_form()]
 
         def text(it):
             k, val = it
@@ -386,6 +392,8 @@ class EnumGen:
         if via:
             out.append('}')
         out.append('pub type Inst = %s%s;' % (e.name, self.ginst))
+        if e.err and self.err_form() == 'assoc':
+            out.append('impl%s %s%s%s { pub fn perr_assoc(s: &str) -> PErr { perr(s) } }' % (self.gdecl_nodefault(), e.name, self.gargs(), self.gwhere))
         return out
 
     def enum_source(self):
@@ -507,14 +515,17 @@ class EnumGen:
         e = self.e
         has_default = any(v.default and not v.dis for v in e.variants)
         custom = e.err and not has_default
-        eform = ERR_FORMS[e.extra.get('err_form', 'plain')]
+        eform = ERR_FORMS[self.err_form()]
         errty = eform[0] if custom else '%s::ParseError' % self.sp
         out = []
         out.append('fn fmt_res(r: Result<Inst, %s>) -> String {' % errty)
         out.append('    match r {')
         out.append('        Ok(v) => format!("ok {}{}", ident_of(&v), payload(&v)),')
         if custom:
-            out.append('        Err(%s) => format!("err custom {}", hex(s.as_bytes())),' % eform[2])
+            if eform[2] == '_unit':
+                out.append('        Err(_) => format!("err custom {}", hex(LAST_ARG.lock().unwrap().as_bytes())),')
+            else:
+                out.append('        Err(%s) => format!("err custom {}", hex(s.as_bytes())),' % eform[2])
         else:
             out.append('        Err(%s::ParseError::VariantNotFound) => "err std".to_string(),' % self.sp)
         out.append('    }')
@@ -770,6 +781,23 @@ class EnumGen:
         out.append('fn op_constfn(a: &[&str]) -> String { "const=%d".to_string() }' % (1 if is_const else 0))
         ops.append(('constfn', 'op_constfn'))
         return out, ops
+
+    def err_form(self):
+        f = self.e.extra.get('err_form', 'plain')
+        if f == 'strumerr' and (self.defs_only or self.sp not in ('strum', '::strum')):
+            return 'plain'   # the support code of the renamed / no_std configurations cannot name strum's own error type
+        return f
+
+    def gdecl_nodefault(self):
+        """the generic parameter list for an impl header (no defaults)"""
+        g = GENERIC_DECL[self.e.generics][0]
+        if self.generic_bound:
+            g = g.replace('Default + PartialEq + ::core::fmt::Debug + Clone', self.generic_bound)
+        return g
+
+    def gargs(self):
+        """the enum's own parameters as arguments: <'a, T, N>"""
+        return {'': '', 'ty': '<T>', 'where': '<T>', 'lt': "<'a>", 'const': '<N>', 'lt_ty': "<'a, T>", 'ty_nd': '<T>'}[self.e.generics]
 
     def ginst_turbofish(self):
         return ''
